@@ -56,6 +56,7 @@ impl Oracle for StateCoverage {
                     }
                     key(&parts)
                 }
+                Probe::Rate(r) => key(&[4, r.mode as u64, (r.send_rate as u64).max(1).ilog2() as u64, r.rtt_s.is_some() as u64]),
                 Probe::None => return None,
             };
             if self.seen.len() < 50_000 {
